@@ -114,7 +114,7 @@ func TestC07Random(t *testing.T) {
 		case 0:
 			id := rapid.SampledFrom(ids).Draw(t, "n")
 			return model.Op{K: "regnode", N: id, NT: typeOf[id], Pol: rapid.IntRange(0, 3).Draw(t, "pol"), Dress: rapid.SampledFrom([]int{0, 0, 1, 2, 3}).Draw(t, "dress"), Reuse: rapid.IntRange(0, 3).Draw(t, "reuse") == 0,
-				Shape: rapid.SampledFrom([]int{0, 0, 1, 2, 3}).Draw(t, "shape")}
+				Shape: rapid.SampledFrom([]int{0, 0, 1, 2, 3, 4}).Draw(t, "shape")}
 		case 1:
 			f := rapid.SampledFrom([]string{"n", "m"}).Draw(t, "f")
 			pids := []string{f, "s"}
